@@ -35,7 +35,7 @@ from ..engine.normalize import inline_helpers
 from ..engine.report import AnalysisError, Run
 from ..engine.resolver import FuncInfo, Program, parent_map, walk_no_nested
 from ..engine.util import method_call, node_calls, node_writes, nodes_with_call, reaching_defs
-from ._c12_util import (Folder, alias, bcanon, call_args, deref, edges_establishing, emptiness, facts, literals,
+from ._c12_util import (DupFree, Folder, alias, bcanon, call_args, deref, edges_establishing, emptiness, facts, literals,
                         normal, path_avoiding_edges, pmap, rename, resolve_callable, single_defs, size_subject,
                         test_edges, txt)
 
@@ -77,6 +77,9 @@ class Ctx:
                     raise AnalysisError(f"anchor {cls.qual}.{n} not found")
                 self.sigs[n] = cls.methods[n].params[1:]
         self._prep: dict[str, FuncInfo] = {}
+        cg = prog.cls(CG)
+        api = {n: cg.methods[n] for n in ("dfs", "successors", "predecessors", "components") if n in cg.methods}
+        self.dupfree = DupFree(prog, api, lambda fn, e: txt(self.norm(deref(e, self.defs(fn)))) == "GRAPH")
         self._values: dict[Any, Any] = {}
         self._defs: dict[int, Any] = {}
         self._nested: dict[int, dict[str, Any]] = {}
@@ -670,6 +673,15 @@ def check_emit(run: Run, cx: Ctx) -> None:
                       "malformed or different formula)", node=loop, file=fn.file,
                       instance=f"{short}: sum loop #{k + 1} emits a well-formed sum")
             sources.setdefault(short, []).append(("-" if subtract else "+", txt(src)))
+            # every term once: what the loop ranges over cannot hold the same component twice
+            unique = cx.dupfree.of(fn, val(loop.iter))
+            if unique is None:
+                raise AnalysisError(f"{fn.qual}: cannot tell how the collection `{txt(loop.iter)[:60]}` summed at line {loop.lineno} is built")
+            run.check(unique, "C12.EMIT", fn.qual, f"sum loop over `{txt(loop.iter)[:50]}`: duplicate-free by construction",
+                      "the collection a sum loop ranges over is a list filled through a many-to-one map (e.g. the "
+                      "predecessor meter of each device): a meter shared by several devices is pushed once per "
+                      "device and the formula counts it several times (`#M + #M`)", node=loop, file=fn.file,
+                      instance=f"{short}: sum loop #{k + 1} ranges over a duplicate-free collection")
             if not metrics:
                 continue
             margs = call_args(metrics[0], cx.sigs["push_component_metric"]) or {}
@@ -690,6 +702,8 @@ def check_emit(run: Run, cx: Ctx) -> None:
                       "device counts as 0, a silent meter makes the sum unknown)", node=metrics[0], file=fn.file,
                       instance=f"{short}: sum loop #{k + 1}: nones_are_zeros is category != METER{(' (' + why + ')') if why else ''}")
         check_guards(run, cx, fn, cfg, defs, short, heads, [t for _s, t in sources.get(short, [])])
+    for helper in cx.dupfree.followed:
+        run.analysed(helper.qual)
     if n < 10:
         raise AnalysisError(f"C12.EMIT: only {n} sum loops found")
     # grid power: every grid successor of the admissible categories
@@ -978,6 +992,8 @@ CONTROLS = [
      "                component.category\n                not in {ComponentCategory.METER, ComponentCategory.INVERTER}", "C12.PART"),
     ("meter fallback lookup asserts the opposite", f"{GEN}._formula_generator",
      "        assert meter.category == ComponentCategory.METER\n", "        assert meter.category != ComponentCategory.METER\n", "C12.METER"),
+    ("CHP meters collected in a list (one entry per CHP)", f"{GEN}._chp_power_formula",
+     "        chp_meters: set[int] = set()\n", "        chp_meters: list[int] = []\n", "C12.EMIT"),
     ("pairing loop stops at the first paired device", f"{GEN}._formula_generator",
      "                        fallbacks.setdefault(predecessor, set()).add(component)\n                        continue\n",
      "                        fallbacks.setdefault(predecessor, set()).add(component)\n                        break\n", "C12.METER"),
